@@ -9,7 +9,6 @@ import (
 	"math/big"
 
 	"com.tuntun.rangers/node/src/common"
-	crypto "com.tuntun.rangers/node/src/eth_crypto"
 )
 
 const (
@@ -300,38 +299,6 @@ func compileInto(a *asm, prog []Action, res resolver) {
 			a.op(opUNSTAKEALL).op(opPOP)
 		default:
 			panic("action " + ac.Op)
-		}
-	}
-}
-
-// children predicts every address a program running at creator (whose nonce
-// is nonce when the program starts) can create, recursively. The runtime of a
-// "return" terminal is not executed in this transaction and is not followed.
-func children(prog []Action, creator common.Address, nonce uint64, res resolver, out *[]common.Address) {
-	n := nonce
-	for _, ac := range prog {
-		switch ac.Op {
-		case "create":
-			// a failed CREATE may or may not have consumed the nonce: cover both
-			for k := uint64(0); k <= 1; k++ {
-				ch := crypto.CreateAddress(creator, n+k)
-				*out = append(*out, ch)
-				children(ac.Init, ch, 1, res, out)
-			}
-			if n > 0 {
-				ch := crypto.CreateAddress(creator, n-1)
-				*out = append(*out, ch)
-			}
-			n++
-		case "create2":
-			init := compile(ac.Init, res)
-			var salt [32]byte
-			sb := new(big.Int).SetUint64(ac.Salt).Bytes()
-			copy(salt[32-len(sb):], sb)
-			ch := crypto.CreateAddress2(creator, salt, crypto.Keccak256(init))
-			*out = append(*out, ch)
-			children(ac.Init, ch, 1, res, out)
-			n++
 		}
 	}
 }
